@@ -666,6 +666,8 @@ func props() []rp.Prop {
 		rp.P[replyCase]{Name: "listener", Checks: n / 6, Gen: genListen, Check: checkListen},
 		rp.P[api.Case]{Name: "args", Checks: n, Gen: genArgs, Check: checkArgs},
 		rp.P[cfgCase]{Name: "config", Checks: n / 10, Gen: genCfg, Check: checkCfg},
+		rp.P[localCase]{Name: "local-layouts", Sweep: sweepLocal, Check: checkLocal},
+		rp.P[addrText]{Name: "address-text", Checks: n / 4, Gen: genAddrText, Check: checkAddrText},
 		rp.P[faultCase]{Name: "network-faults", Checks: ev.Pick(600, 40000) / ev.Shards(), Gen: genFault, Check: checkFault},
 		rp.P[slowCase]{Name: "slow-consumer", Sweep: func(yield func(slowCase) bool) {
 			for _, h := range []int{0, 40, 3200} {
